@@ -6,8 +6,8 @@ an anchor text that no longer occurs exactly once makes the variant STALE (repor
 VARIANTS = []
 
 
-def V(name, prop, expect, rule=None, edits=None, revert=None, paths=None, note=""):
-    VARIANTS.append(dict(name=name, property=prop, expect=expect, rule=rule, edits=edits or [], revert_commit=revert, paths=paths, note=note))
+def V(name, prop, expect, rule=None, edits=None, revert=None, paths=None, note="", patch=None):
+    VARIANTS.append(dict(name=name, property=prop, expect=expect, rule=rule, edits=edits or [], revert_commit=revert, paths=paths, note=note, patch=patch))
 
 
 SC = "scenario/scenario.py"
